@@ -410,6 +410,12 @@ var thresholdProbes = []string{`^a.*b`, `^.+b`, `^(\w+) .*b`, `^[a-z]+.*x`, `^a.
 // GenStretched returns a haystack with one loop of the pattern iterated a few thousand times (ASCII), then possibly a multi-byte
 // rune and a second sampled match; nil if the pattern has no unbounded loop.
 func GenStretched(r *RNG, re *syntax.Regexp) []byte {
+	return GenStretchedVariant(r, re, r.Intn(3)*r.Intn(2), r.Chance(70))
+}
+
+// GenStretchedVariant: the stretched match loses its last `trim` bytes (the long attempt fails at its very end; a match of another
+// shape follows inside / behind it), then comes a multi-byte rune if `nonASCII`, then a second sampled match.
+func GenStretchedVariant(r *RNG, re *syntax.Regexp, trim int, nonASCII bool) []byte {
 	done := false
 	var h []byte
 	if r.Chance(30) {
@@ -419,7 +425,10 @@ func GenStretched(r *RNG, re *syntax.Regexp) []byte {
 	if !done {
 		return nil
 	}
-	if r.Chance(70) {
+	if trim > 0 && len(h) > trim+2 {
+		h = h[:len(h)-trim]
+	}
+	if nonASCII {
 		h = append(h, "é"...)
 	}
 	b := 40
